@@ -24,6 +24,22 @@ NEEDS = {
     'S3-C11': "a second upwindMean on the same variable (or a boundary face with exactly zero velocity); float data with ghost != adjacent interior value",
     'S3-C13': "a field with a minute non-zero jump (e.g. 1e-200) next to an ordinary one, and a non-clipping limiter (CHARM, ospre, VanAlbada1)",
     'S3-C17': "SphericalGrid3D, non-periodic azimuth, Robin or inhomogeneous Neumann data on the back face",
+    'S4-C01': "CylindricalGrid1D, TVD right-hand side, an interior face with negative radial velocity and an active limiter, face radius != 1",
+    'S4-C02': "a 2-D grid class, a negative second-axis velocity component, and reuse of the same velocity FaceVariable after an upwind / TVD term was built from it",
+    'S4-C03': "2-D or 3-D grid, float field, plotprofile() / visualizeCells() followed by a read of the ghost cells without apply_BCs() in between",
+    'S4-C04': "a 3-D grid class and non-integer source (or transient) values: the right-hand side array inherits the integer dtype of the cell-number array",
+    'S4-C05': "Grid1D built from an integer-dtype face-location array; the explicit divergence is truncated",
+    'S4-C06': "Grid2D with exactly one cell along an axis and a positive velocity on the low face of that axis (repeated fancy index, last update wins)",
+    'S4-C07': "a c-only property assignment (BCs.<face>.c = v) between two solvePDE calls; the dirty flag is not raised",
+    'S4-C08': "Grid2D / CylindricalGrid2D with cell values given as an integer or bool array and a non-integer ghost value",
+    'S4-C09': "a.update_value(b), then an in-place .value edit on either variable before the next rebinding, then a solve reading the other",
+    'S4-C10': "CylindricalGrid3D with a single theta cell spanning exactly 2*pi",
+    'S4-C12': "a multi-step explicit loop that passes the same RHS ndarray again (time-independent RHS built once)",
+    'S4-C13': "the 'smart' limiter with gradient ratio above 7/3",
+    'S4-C14': "unary minus on a CellVariable with inhomogeneous, non-periodic boundary conditions",
+    'S4-C15': "upwindMean on a float variable whose ghost value differs from the adjacent interior value, then any later use of the ghost cells",
+    'S4-C16': "an initial-value array with singleton axes, or any 2-D / 3-D grid with one cell along some but not all axes",
+    'S4-C17': "same change as S4-C08, seen through unit rescaling (whole-number data are an int array in one unit system, floats in another)",
     'S2-C16': "assigning FaceVariable.yvalue on CylindricalGrid2D / PolarGrid2D / 3-D curvilinear grids (subclasses of Grid2D/Grid3D) where the label is not documented",
 }
 
@@ -37,6 +53,15 @@ BEFORE = {
     'S2-C14': "C14 exit 2 (branch on a symbolic scalar); path splitting on symbolic scalar conditions added, plus concrete scalar operands 0 and 2",
     'S3-C02': "C02 exit 0 (only the generic cell was expanded; caught by C01.R4, C05.E3, C06.U3, C07.M2, C08.A2); C02.K3 boundary-face flux consistency added",
     'S3-C13': "C13 exit 0: F8 only demanded a total, non-zero _fsign; 'bounded away from zero' added to F8",
+    'S4-C03': "no check reported it (B8 only compared the returned profile); B8 now also requires that plotprofile leaves the value array unwritten",
+    'S4-C04': "exit 2 in C01/C04/C06/C12/C17 (the truncation wrapper lost the block structure of flat arrays; zeros_like(..).ravel() lost the all-zero base); fixed, and C04.S9 added (sources enter exactly)",
+    'S4-C05': "no check reported it: scalars taken from integer face arrays lost their integer kind, so cellsize was modelled as float; face atoms are integer-valued in int-dtype worlds now",
+    'S4-C06': "exit 2 (np.stack outside the subset) and `A[[0,-1],:] += v` was modelled as a store into a temporary; np.stack modelled, augmented assignment with an advanced key goes through __setitem__ (last index wins)",
+    'S4-C08': "exit 2 in ten checks (np.pad of an n-D array); modelled (keeps the dtype), reported by the integer-dtype pass of C03",
+    'S4-C17': "as S4-C08",
+    'S4-C09': "no check reported it; C09.P8u added (update_value / value setter leave no shared storage)",
+    'S4-C12': "no check reported it: the symbolic RHS was not a storage object and reshape results were not views; reshape/ravel results now share storage with their source for effect tracking, C12.T3 / C01.R8 cover the RHS vector",
+    'S4-C16': "exit 2 (np.squeeze outside the subset); modelled; C16.L4 gets singleton-axis shapes, C16.L9 the documented array forms on meshes with one cell along some axes",
     'S-C04': "C04 silent in round 1 (caught by C09 only); C04.S8 added",
     'S-C15': "C05 exit 2 in round 1 (case-split budget); recursive case split",
 }
